@@ -12,7 +12,7 @@ Pipeline of one check (DESIGN 2.3 / 2.4):
   6. verdict: HelmMon.tla evaluates the property predicates on the OBSERVED states; a failing
      predicate is a VIOLATION unless it matches a listed known finding.
 """
-import json, os, sys, time, collections, random
+import json, os, sys, time, collections, random, glob
 import vlib
 from vlib import Inconclusive, log
 
@@ -20,7 +20,7 @@ from vlib import Inconclusive, log
 CHECKS = {
     "C01": ["C01_OneDeployed", "C01_KeyIsBody", "C01_NextRevision", "C01_Success", "C01_Prune"],
     "C02": ["C02_Success", "C02_Uninstall", "C02_UninstallListed", "C02_Bystanders"],
-    "C03": ["C03_Error", "C03_Failed", "C03_Cleanup", "C03_AtomicUpgrade", "C03_AtomicInstall"],
+    "C03": ["C03_Error", "C03_Failed", "C03_Cleanup", "C03_AtomicUpgrade", "C03_AtomicTarget", "C03_AtomicInstall"],
     "C06": ["C06_ReadOnly", "C06_EndSame"],
     "C07": ["C07_Refusal", "C07_Stamped", "C07_DeleteNamed"],
     "C09": ["C09_CreateFresh", "C09_UniqueCreator", "C09_LoserClean", "C09_Quiescent", "C01_KeyIsBody", "C01_NextRevision", "C01_OneDeployed"],
@@ -436,6 +436,13 @@ def run(pid, tier, seed, replay=None):
     if len(raws) < 10:
         raise Inconclusive("scenario generator produced only %d scenarios" % len(raws))
     scs = assign_drivers(raws, fam["drivers"], "s", cli=fam.get("cli", 4))
+    # pinned scenarios: histories that once exposed a defect (regress/*.json), replayed in every run
+    reg_n = 0
+    for f in sorted(glob.glob(os.path.join(vlib.ROOT, "regress", "*.json"))):
+        sc = json.load(open(f))
+        if pid in sc.get("props", []):
+            scs.append({k: v for k, v in sc.items() if k not in ("props", "why")})
+            reg_n += 1
     tf, rdt = vlib.run_scenarios(hv, scs, d)
     events = vlib.load_trace(tf)
     notes = vlib.notes_of(events)
@@ -557,6 +564,7 @@ def run(pid, tier, seed, replay=None):
         "scenarios_driven_through_the_command_line": sum(1 for s_ in scs if any(st.get("via") == "cli" for st in s_["steps"])),
         "schedules_not_followed_by_the_real_code": sched_div,
         "fault_sweep_scenarios_every_call_position": sweep_n,
+        "pinned_regression_scenarios": reg_n,
         "scenarios_from_exhaustive_enumeration_of_short_operation_sequences": enum_n,
         "race_detector": race,
         "evaluations": len(scs), "distinct_nontrivial": distinct_end,
